@@ -35,7 +35,7 @@ ITER_ALLOWED = [DERIVE_ALLOWED, r'^external_body pub fn (new|f32_mul|into_iter|v
 ITER_ASSUME = [
     DERIVE,
     'Card key model: derived Hash/Eq of Card agree (broadcast axiom), so vstd set semantics apply to HashSet<Card>',
-    'callee contract Showdown::new (C03) assumed here, proved in unit SHOWDOWN',
+    'callee contract Showdown::new (C03) assumed here, proved in unit SHOWDOWN -- which this check re-runs (callee_units_rechecked); if it no longer holds, the failing-input search of this property decides',
     'assume_specification for <[T]>::fill: every element becomes the value',
     'R7: HashSet<Card, FxBuildHasher> replaced by HashSet<Card> (abstract set semantics hold for any deterministic hasher)',
     'R1 enumerate, R2/R10: f32 `*=` routed through f32_mul, an uninterpreted deterministic function (floats are NOT treated as reals)',
